@@ -38,13 +38,12 @@ Min(a, b) == IF a <= b THEN a ELSE b
 \* ---- reference ---------------------------------------------------------------
 NextGap(gap, upper) == Min(2 * gap, upper)
 
-RECURSIVE Gap(_, _, _)
-Gap(p, g, i) == IF i = 1 THEN g ELSE NextGap(Gap(p, g, i - 1), p.upper)     \* i-th gap, i in 1..repeat
+\* s: offsets so far, gap: gap to the next transmission, n: transmissions still to schedule
+RECURSIVE Build(_, _, _, _)
+Build(p, s, gap, n) == IF n = 0 THEN s
+                       ELSE Build(p, Append(s, s[Len(s)] + gap), NextGap(gap, p.upper), n - 1)
 
-RECURSIVE Offset(_, _, _, _)
-Offset(p, d0, g, i) == IF i = 1 THEN d0 ELSE Offset(p, d0, g, i - 1) + Gap(p, g, i - 1)
-
-Schedule(p, d0, g) == [i \in 1..(1 + p.repeat) |-> Offset(p, d0, g, i)]
+Schedule(p, d0, g) == Build(p, <<d0>>, g, p.repeat)
 
 \* ---- the property, clause by clause, over an observed sequence -----------------
 GapAt(off, i) == off[i + 1] - off[i]                                         \* i in 1..Len(off)-1
@@ -72,31 +71,43 @@ Next == UNCHANGED case
 Spec == Init /\ [][Next]_case
 
 \* ---- laws of the reference (checked on every case) ------------------------------
-Par == ParamSet(case.ps)
-Ref == Schedule(Par, case.d0, case.g)
+Law(name, cond) == IF cond THEN TRUE ELSE PrintT(<<"LAWFAIL", name, case>>) /\ FALSE
 
 ParamsWellFormed == \A ps \in PSets : WellFormed(ParamSet(ps))
-RefInEnvelope == Envelope(Par, 1, Ref)
-RefMonotone == \A i \in 1..(Len(Ref) - 1) : Ref[i] < Ref[i + 1]
-RefGapsGrowAndCapped == \A i \in 1..(Len(Ref) - 1) :
-                           /\ GapAt(Ref, i) <= Par.upper
-                           /\ (i > 1 => GapAt(Ref, i) >= GapAt(Ref, i - 1))
-                           /\ (i > 1 /\ GapAt(Ref, i) < Par.upper => GapAt(Ref, i) = 2 * GapAt(Ref, i - 1))
+
+Monotone(ref) == \A i \in 1..(Len(ref) - 1) : ref[i] < ref[i + 1]
+GapsGrowAndCapped(p, ref) == \A i \in 1..(Len(ref) - 1) :
+                               /\ GapAt(ref, i) <= p.upper
+                               /\ (i > 1 => GapAt(ref, i) >= GapAt(ref, i - 1))
+                               /\ (i > 1 /\ GapAt(ref, i) < p.upper => GapAt(ref, i) = 2 * GapAt(ref, i - 1))
 \* once the cap is reached all following gaps are the cap
-RefCapSticks == \A i \in 1..(Len(Ref) - 2) : GapAt(Ref, i) = Par.upper => GapAt(Ref, i + 1) = Par.upper
+CapSticks(p, ref) == \A i \in 1..(Len(ref) - 2) : GapAt(ref, i) = p.upper => GapAt(ref, i + 1) = p.upper
+\* closed form: i-th gap = min(g * 2^(i-1), upper)
+ClosedForm(p, g, ref) == \A i \in 1..(Len(ref) - 1) : GapAt(ref, i) = Min(g * 2 ^ (i - 1), p.upper)
 \* the whole burst is over after maxInitial + max + (repeat - 1) * upper
-RefBounded == Par.repeat >= 1 => Ref[Len(Ref)] <= Par.maxInitial + Par.max + (Par.repeat - 1) * Par.upper
-\* the unit of measurement is immaterial
-RefScales == Envelope(Par, 1000, [i \in 1..Len(Ref) |-> 1000 * Ref[i]])
+Bounded(p, ref) == p.repeat >= 1 => ref[Len(ref)] <= p.maxInitial + p.max + (p.repeat - 1) * p.upper
 \* the clauses are discriminating: typical faults of a schedule are rejected
 Drop(s) == SubSeq(s, 1, Len(s) - 1)
-Uncapped == [i \in 1..Len(Ref) |-> IF i = 1 THEN case.d0 ELSE case.d0 + case.g * (2 ^ (i - 1) - 1)]
-ClausesDiscriminate ==
-    /\ ~CountOK(Par, Drop(Ref)) /\ ~CountOK(Par, Append(Ref, Ref[Len(Ref)] + Par.upper))
-    /\ ~InitialOK(Par, 1, [i \in 1..Len(Ref) |-> Ref[i] + Par.maxInitial + 1 - case.d0])
-    /\ (Par.repeat >= 1 => ~FirstGapOK(Par, 1, [i \in 1..Len(Ref) |-> IF i = 1 THEN Ref[1] ELSE Ref[i] + Par.max]))
-    /\ (Uncapped # Ref => ~FollowOK(Par, 1, Uncapped))
+Discriminate(p, d0, g, ref) ==
+    LET uncapped == [i \in 1..Len(ref) |-> d0 + g * (2 ^ (i - 1) - 1)]      \* doubling without cap
+        late == [i \in 1..Len(ref) |-> ref[i] + p.maxInitial + 1 - d0]
+        wide == [i \in 1..Len(ref) |-> IF i = 1 THEN ref[1] ELSE ref[i] + p.max]
+    IN /\ ~CountOK(p, Drop(ref)) /\ ~CountOK(p, Append(ref, ref[Len(ref)] + p.upper))
+       /\ ~InitialOK(p, 1, late)
+       /\ (p.repeat >= 1 => ~FirstGapOK(p, 1, wide))
+       /\ (uncapped # ref => ~FollowOK(p, 1, uncapped))
+
+Laws == LET par == ParamSet(case.ps)
+            ref == Schedule(par, case.d0, case.g)
+        IN /\ Law("in_envelope", Envelope(par, 1, ref))
+           /\ Law("monotone", Monotone(ref))
+           /\ Law("gaps_grow_and_capped", GapsGrowAndCapped(par, ref))
+           /\ Law("cap_sticks", CapSticks(par, ref))
+           /\ Law("closed_form", ClosedForm(par, case.g, ref))
+           /\ Law("bounded", Bounded(par, ref))
+           /\ Law("unit_immaterial", Envelope(par, 1000, [i \in 1..Len(ref) |-> 1000 * ref[i]]))
+           /\ Law("clauses_discriminate", Discriminate(par, case.d0, case.g, ref))
 
 \* ---- case emission (spec -> code) --------------------------------------------------
-Emit == PrintT(<<"CASE", ToJson([ps |-> case.ps, d0 |-> case.d0, g |-> case.g, exp |-> Ref])>>)
+Emit == PrintT(<<"CASE", ToJson([ps |-> case.ps, d0 |-> case.d0, g |-> case.g, exp |-> Schedule(ParamSet(case.ps), case.d0, case.g)])>>)
 =============================================================================
